@@ -21,8 +21,10 @@
     (`parse.VerifTables()` of the running code).
   * Scanning loops are recursive functions whose termination Lean checks with the measure
     `|input| − pos` (`Lexer.rem`); plain `for p(l.next()) {}` loops share `scanWhile`.
-    Only the top-level `run` loop takes fuel (`fuelFor`), and running out of it is the
-    distinguished outcome `fuelOut`.
+    Only the top-level `run` loop takes fuel (`fuelFor |input| = 7·|input| + 8` state
+    transitions), and running out of it is the distinguished outcome `fuelOut` — which
+    `Props/C05.lean` proves never happens (`lex_total`), as it proves that `panic` never
+    happens on the current code (`lex_no_panic`).
   * The unbuffered channel is not modelled: `emit`/`errorf` append to `items`.
 -/
 import SoyVerif.Model.Token
